@@ -1,6 +1,6 @@
 (* C07 — processing is idempotent: a second run changes and reports nothing.
    Property theorems only: each is closed by `exact <lemma>`. *)
-From AD Require Import Bytes Outcome Gen Gzip GzipProofs Ar ArSpec ArProofs ArIdem PycHeader PycHeaderProofs Date Zip ZipProofs ZipRoundTrip Fs Helper HelperProofs Idem.
+From AD Require Import Bytes Outcome Gen Gzip GzipProofs Ar ArSpec ArProofs ArIdem PycHeader PycHeaderProofs Date Zip ZipProofs ZipRoundTrip Walk Javadoc JavadocProofs JavadocVariants StripIdem Fs Helper HelperProofs Idem.
 
 (* byte level: the handler finds nothing to change in its own output *)
 Theorem C07_gzip : forall epoch x y hm,
@@ -18,6 +18,12 @@ Proof. exact zero_mtime_idempotent. Qed.
 Theorem C07_zip_members_settled : forall epoch d t o, (dos_min <= epoch <= dos_max)%Z -> dos_of_unix epoch = Some (d, t) ->
   snd (clamp_member epoch (d, t) (fst (clamp_member epoch (d, t) o))) = false.
 Proof. exact clamp_member_settled. Qed.
+
+(* javadoc: after one pass no stamp text is left to remove - a second pass over any stripped line strips
+   nothing more (the defect repaired as F4 was a second pass that did) *)
+Theorem C07_javadoc_stamps_partial : forall l,
+  strip_stamps (length (strip_stamps (length l) l)) (strip_stamps (length l) l) = strip_stamps (length l) l.
+Proof. exact strip_stamps_idempotent. Qed.
 
 (* zip/jar: a second pass over an archive written by the handler whose members are settled (not later than
    the epoch - which C07_zip_members_settled gives for the output of a first pass) reports nothing, whatever
@@ -53,6 +59,7 @@ Proof. exact not_replaced_untouched. Qed.
 Print Assumptions C07_gzip.
 Print Assumptions C07_ar.
 Print Assumptions C07_pyc_zero_mtime.
+Print Assumptions C07_javadoc_stamps_partial.
 Print Assumptions C07_zip_members_settled.
 Print Assumptions C07_zip_second_pass.
 Print Assumptions C07_second_run_noop.
